@@ -86,8 +86,12 @@ pub fn run(tier: &str, seed: u64, replay: Option<String>) -> i32 {
     let thorough = tier == "thorough";
     let full = std::env::var("VERIF_C19_FULL").is_ok();
     let scratch = Scratch::new("c19");
-    let files = corpus::load(&[FileKind::Ctehexml, FileKind::Cte, FileKind::Kyg, FileKind::Tbl]);
+    let mut files = corpus::load(&[FileKind::Ctehexml, FileKind::Cte, FileKind::Kyg, FileKind::Tbl]);
     let mut rng = Rng::new(rng::derive(seed, "C19", 0));
+    // projects printed by the generator are damaged like the shipped ones (blocks with fins,
+    // overhangs, basements, several window constructions)
+    let gen_base = rng.next_u64() % 1_000_000;
+    files.extend(corpus::generated((0..if thorough { 12 } else { 4 }).map(|k| gen_base + k)));
 
     // ---- fault-free configuration (strict): every intact file, at every level
     let mut jobs: Vec<DJob> = vec![];
